@@ -28,3 +28,29 @@ func At(xs []int, n int) int {
 	}
 	return 0
 }
+
+type pair struct {
+	head int
+	rest int
+}
+
+func sum(xs []int) int {
+	t := 0
+	for _, x := range xs {
+		t += x
+	}
+	return t
+}
+
+// Chain reads ys[0] and passes ys[1:] to a call in one statement. The compiler evaluates the
+// operand with the call first and then needs no check for ys[0]; reading the statement left to
+// right, ys[0] would seem to vouch for ys[1:]. Neither vouches for the other: an empty ys panics.
+func Chain(xs, ys []int) *pair {
+	if len(xs) < 1 {
+		return nil
+	}
+	return &pair{
+		head: ys[0],
+		rest: sum(ys[1:]),
+	}
+}
